@@ -16,6 +16,8 @@ pub enum Policy {
     First,
     Last,
     Middle,
+    /// first element for even lengths, last element for odd lengths (alternating adversary)
+    ParityEnds,
 }
 
 impl Policy {
@@ -24,9 +26,18 @@ impl Policy {
             Policy::First => 0,
             Policy::Last => n - 1,
             Policy::Middle => n / 2,
+            Policy::ParityEnds => {
+                if n % 2 == 0 {
+                    0
+                } else {
+                    n - 1
+                }
+            }
         }
     }
     pub const ALL: [Policy; 3] = [Policy::First, Policy::Last, Policy::Middle];
+    /// the policies used on long lanes (worst cases for quickselect: depth ~ n)
+    pub const ADVERSARIAL: [Policy; 4] = [Policy::First, Policy::Last, Policy::ParityEnds, Policy::Middle];
 }
 
 #[derive(Clone, Debug, PartialEq)]
